@@ -47,6 +47,11 @@ func (s *memorySession) applyQOS(msg *packet.Message) *packet.Message {
 			msg = msg.Copy()
 			msg.QOS = sub.QOS
 		}
+	} else if msg.QOS > 0 {
+		// the subscription has been removed while the message was queued,
+		// deliver it with the lowest qos to never exceed the granted qos
+		msg = msg.Copy()
+		msg.QOS = 0
 	}
 
 	return msg
